@@ -113,6 +113,9 @@ def run_sessions(spec: dict, prop: str, make_monitors: Callable[[], list],
         merge_monitors(monitors, acc)
         acc["counters"]["sessions"] = acc["counters"].get("sessions", 0) + 1
         acc["counters"]["steps"] = acc["counters"].get("steps", 0) + sess.nsteps
+        acc["counters"]["distinct-states-visited(sum over sessions)"] = \
+            acc["counters"].get("distinct-states-visited(sum over sessions)", 0) + \
+            len(sess.state_hashes)
         if sess.hang:
             acc["counters"]["hangs"] = acc["counters"].get("hangs", 0) + 1
         if len(acc["samples"]) < 1 and sess.ops:
